@@ -98,8 +98,9 @@ mod imp {
         pub cancelled: Vec<usize>,
     }
 
-    fn reader_body(db: SimDatabase, reqs: Vec<Req>, writer_round: bool) -> Vec<Outc> {
+    fn reader_body(db: SimDatabase, reqs: Vec<Req>, writer_round: bool, ti: usize) -> Vec<Outc> {
         let mut out = vec![];
+        salsa::verif::trace_mark(&format!("reader_start:{ti}"));
         for r in reqs {
             let o = match r {
                 Req::Yield => {
@@ -135,6 +136,7 @@ mod imp {
                     Err(p) => Outc::Panic(panic_kind(&p)),
                 },
             };
+            salsa::verif::trace_mark("request_end");
             let stop = matches!(&o, Outc::Panic(PK::Cancelled(c)) if c == "PendingWrite");
             let stop = stop || (writer_round && matches!(&o, Outc::Panic(PK::Cancelled(c)) if c == "PropagatedPanic"));
             out.push(o);
@@ -183,7 +185,8 @@ mod imp {
                 tokens.push(salsa::Database::cancellation_token(&dbc));
                 let reqs = reqs.clone();
                 let wr = round.writer.is_some();
-                handles.push(shuttle::thread::spawn(move || reader_body(dbc, reqs, wr)));
+                let ti = handles.len();
+                handles.push(shuttle::thread::spawn(move || reader_body(dbc, reqs, wr, ti)));
             }
             // controller: cancel tokens at scheduler-chosen moments
             for (ti, delay) in &round.cancels {
@@ -191,6 +194,7 @@ mod imp {
                     crate::sched_yield();
                 }
                 if let Some(t) = tokens.get(*ti as usize) {
+                    salsa::verif::trace_mark(&format!("cancel:{ti}"));
                     t.cancel();
                     log.cancelled.push(*ti as usize);
                 }
